@@ -241,6 +241,25 @@ class C18(Spec):
             fp = (bd, ch, n, ctx.rng.random() < 0.3)
             data = make_file(*fp)
             batch.append((fp, data, tuple(random_ops(ctx.rng, n, ctx.rng.randint(3, 40 if ctx.quick else 400)))))
+        # large files and large requests (more than one 8192-frame library block per read / iteration block)
+        big = [(16, 1, 20000, False), (24, 2, 17000, True), (32, 3, 8193, False), (16, 2, 16384, False)]
+        sizes = [8191, 8192, 8193, 11000, 12000, 16384, 16385, 20000]
+        for fp in (big if not ctx.quick else [big[ctx.seed % len(big)], big[(ctx.seed + 1) % len(big)]]):
+            data = make_file(*fp)
+            N = fp[2]
+            for _ in range(12 if ctx.quick else 80):
+                ops = []
+                for _ in range(ctx.rng.randint(2, 6)):
+                    k = ctx.rng.random()
+                    if k < 0.35:
+                        ops.append(("s", ctx.rng.choice([0, 500, 5000, N - 9000, N - 1, -3, -8193, -9000]), ctx.rng.choice([0, 1, 2])))
+                    elif k < 0.75:
+                        ops.append(("r", ctx.rng.choice(sizes + [1, 100])))
+                    else:
+                        ops.append(("i", ctx.rng.choice(sizes)))
+                    ops.append(("t",))
+                batch.append((fp, data, tuple(ops)))
+                ctx.count("large-file-case")
         for i in range(0, len(batch), 20000):
             self._compare(ctx, driver, batch[i:i + 20000])
 
